@@ -15,6 +15,7 @@ THEOREMS = ["c08_one_point_per_match", "c08_only_watchers_get_rows", "c08_value_
             "c08_time_correct", "c08_time_by_group", "c08_unparsable_drops_point_only",
             "c08_other_signals_unaffected", "c08_no_match_no_point", "c08_observers_never_stop_the_play"]
 
+SIG_STARTS = "actor-spotlight-not-run-exactly-once"
 BITS = [(1, "changed-sample-recorded-twice"), (2, "row-count-differs-from-matching-lines"),
         (4, "wrong-value-recorded"), (8, "wrong-time-recorded"), (16, "a-line-stopped-the-play")]
 
@@ -151,7 +152,7 @@ def run(tier, seed):
         res.violation(None, "proof obligations of C08 broken: %s" % detail.get("broken"),
                       {"kind": "proof-obligation", "detail": detail}, no_input=True)
         return res.finish()
-    names = ["c08"] + (["shakespeare"] if tier == "thorough" else [])
+    names = ["c08", "shakespeare"]
     bins, ok = audcommon.prepare(res, names)
     if not ok:
         return res.finish()
@@ -189,15 +190,30 @@ def run(tier, seed):
             res.violation(None, "model (Model/Spotlight.v + Model/Audit.v) and implementation disagree (%s) on %s cases of %d while the oracle passes: correspondence broken" % (", ".join(which), n_model, len(cases)),
                           dict(describe_inproc(cases[i]), kind="correspondence", n_disagreements=n_model,
                                sig_events=[o.get("Events") for o in cases[i]["Result"]["Outs"]]), no_input=True)
-    if tier == "thorough" and not res.violations:
-        e = run_e2e(res, bins, seed, 12)
+    if not res.violations:
+        # plays through the real binary (the spotlight supervisor, the shell,
+        # the pipes): several actors, each printing its own lines
+        e = run_e2e(res, bins, seed, 4 if tier == "quick" else 12)
         if e is not None:
             ecases_v, ecases, esummary = e
-            eev = evaluate(res, ecases_v, "e2e", 4, oracle_only=True)
+            bad_starts = [c for c in ecases if any(n != 1 for n in c.get("spotlight_starts", {}).values())]
+            if bad_starts:
+                c = min(bad_starts, key=lambda c: describe_e2e(c)["size"])
+                d = describe_e2e(c)
+                d.pop("size", None)
+                d.update({"kind": "failing-input", "spotlight_starts": c["spotlight_starts"], "n_failing_plays": len(bad_starts)})
+                res.violation(SIG_STARTS, "an actor's spotlight command was not run exactly once (starts per actor: %s): its lines yield no point / several points" % c["spotlight_starts"], d)
+            eev = evaluate(res, ecases_v, tier + "e2e", 4, oracle_only=True)
             if eev is not None:
+                # rows doubled because a script ran twice are a row-count
+                # matter, not the changed-sample defect
+                for i, c in enumerate(ecases):
+                    if c in bad_starts and eev["OC"][i] & 1:
+                        eev["OC"][i] = (eev["OC"][i] & ~1) | 2
                 report_oracle(res, eev["OC"], ecases, describe_e2e)
                 res.coverage["end_to_end_plays"] = {"plays": esummary["cases"], "stats": esummary["stats"],
-                                                   "oracle_failures": sum(1 for c in eev["OC"] if c)}
+                                                   "oracle_failures": sum(1 for c in eev["OC"] if c),
+                                                   "rule": "plays through the real binary with 2-4 actors (of one role and of different roles), each actor's spotlight script printing its own generated lines (stdout/stderr alternating, blanks, empty lines, uneven pace); per (observer, actor, signal) file the rows must be that actor's good lines exactly once, and every script must have been started exactly once"}
                 if esummary["stats"].get("inconclusive-play-cut-short"):
                     res.notes.append("%d end-to-end plays ended before a spotlight had printed all its lines (sentinel row missing): not judged" % esummary["stats"]["inconclusive-play-cut-short"])
     return res.finish()
